@@ -111,6 +111,20 @@ def regen_facts(binary):
         with open(dst, 'w') as f:
             f.write(new)
         log('Gen/Facts.v changed')
+    # cluster facts: every harness sub-command harness/subs/facts_<cluster>.rs -> Gen/Facts_<cluster>.v
+    for sub in sorted(glob.glob(os.path.join(VERIF, 'harness', 'subs', 'facts_*.rs'))):
+        cl = os.path.basename(sub)[len('facts_'):-3]
+        text = '\n'.join(harness(binary, 'facts-' + cl)) + '\n'
+        new = gen_facts.generate_generic(text)
+        dst = os.path.join(COQ, 'theories', 'Gen', 'Facts_%s.v' % cl)
+        try:
+            old = open(dst).read()
+        except OSError:
+            old = None
+        if old != new:
+            with open(dst, 'w') as f:
+                f.write(new)
+            log('Gen/Facts_%s.v changed' % cl)
     return out
 
 
